@@ -172,7 +172,8 @@ def build_unit(unit, width):
         for k, v in {"@WORD@": W, "@STATE@": S, "@WORD_BITS@": str(wb), "@STATE_BITS@": str(sb),
                      "@PROB@": prob, "@PROB_BITS@": str(pb),
                      "@WORD_MAX@": hex((1 << wb) - 1), "@STATE_MAX@": hex((1 << sb) - 1),
-                     "@POW_STATE_BITS@": hex(1 << sb), "@POW_WORD_BITS@": hex(1 << wb)}.items():
+                     "@POW_STATE_BITS@": hex(1 << sb), "@POW_WORD_BITS@": hex(1 << wb),
+                     "@SBWB@": str(sb - wb), "@TH@": hex(1 << (sb - wb))}.items():
             tmpl = tmpl.replace(k, v)
     name = unit["name"] + ("_" + width if width else "")
     path = os.path.join(GEN, name + ".rs")
